@@ -15,30 +15,30 @@ Inductive target :=
 
 Definition doc_next (n : dnode) (a : action) : option target :=
   match n, a with
-  | DRecv, (ANone | ARet SLookup) => Some (TGo DHashL)
+  | DRecv, (ANone | AAbsent | ARet SLookup) => Some (TGo DHashL)
   | DRecv, ARet SPass => Some (TGo DHashP)
   | DRecv, (ARet SError | AErrorStmt) => Some (TGo DError)
   | DRecv, (ARet SRestart | ARestartStmt) => Some TRestart
-  | DHashL, (ANone | ARet SHash) => Some TLookup
-  | DHashP, (ANone | ARet SHash) => Some (TGo DPass)
-  | DHit, (ANone | ARet SDeliver) => Some (TGo DDeliver)
+  | DHashL, (ANone | AAbsent | ARet SHash) => Some TLookup
+  | DHashP, (ANone | AAbsent | ARet SHash) => Some (TGo DPass)
+  | DHit, (ANone | AAbsent | ARet SDeliver) => Some (TGo DDeliver)
   | DHit, ARet SPass => Some (TGo DPass)
   | DHit, (ARet SError | AErrorStmt) => Some (TGo DError)
   | DHit, (ARet SRestart | ARestartStmt) => Some TRestart
-  | DMiss, (ANone | ARet SFetch) => Some (TGo DFetch)
+  | DMiss, (ANone | AAbsent | ARet SFetch) => Some (TGo DFetch)
   | DMiss, ARet SDeliverStale => Some (TGo DDeliver)
   | DMiss, ARet SPass => Some (TGo DPass)
   | DMiss, (ARet SError | AErrorStmt) => Some (TGo DError)
-  | DPass, (ANone | ARet SPass) => Some (TGo DFetch)
+  | DPass, (ANone | AAbsent | ARet SPass) => Some (TGo DFetch)
   | DPass, (ARet SError | AErrorStmt) => Some (TGo DError)
-  | DFetch, (ANone | ARet SDeliver | ARet SDeliverStale | ARet SHitForPass | ARet SPass) => Some (TGo DDeliver)
+  | DFetch, (ANone | AAbsent | ARet SDeliver | ARet SDeliverStale | ARet SHitForPass | ARet SPass) => Some (TGo DDeliver)
   | DFetch, (ARet SError | AErrorStmt) => Some (TGo DError)
   | DFetch, (ARet SRestart | ARestartStmt) => Some TRestart
-  | DError, (ANone | ARet SDeliver | ARet SDeliverStale) => Some (TGo DDeliver)
+  | DError, (ANone | AAbsent | ARet SDeliver | ARet SDeliverStale) => Some (TGo DDeliver)
   | DError, (ARet SRestart | ARestartStmt) => Some TRestart
-  | DDeliver, (ANone | ARet SDeliver) => Some (TGo DLog)
+  | DDeliver, (ANone | AAbsent | ARet SDeliver) => Some (TGo DLog)
   | DDeliver, (ARet SRestart | ARestartStmt) => Some TRestart
-  | DLog, (ANone | ARet SDeliver) => Some TEnd
+  | DLog, (ANone | AAbsent | ARet SDeliver) => Some TEnd
   | _, _ => None
   end.
 
@@ -132,7 +132,7 @@ Fixpoint after_node (n : dnode) (tr : list event) : option (option dnode) :=
 
 Definition run_edge (n : dnode) (a : action) (at_limit : bool) (p : persistent) : option (option dnode * bool) :=
   let r := if at_limit then max_varnish_restarts else 0 in
-  let c := mkC r XNone false false false None [] [] 0 in
+  let c := mkC r XNone false false false None [] [] 0 false None in
   match run sm_fuel (edge_oracle n a) edge_request NRecv c p with
   | OK (c', _, err) =>
       match after_node n (rev (c_trace c')) with
